@@ -138,17 +138,98 @@ def pyGet {α} (l : List α) (i : Int) : Except String α :=
     | none => .error "IndexError"
   else .error "IndexError"
 
-/-- utilities.parse_spaces.  `tuple(set(spaces))` is taken to iterate in ascending order (true for the index
-    ranges the harness generates; mixed negative/positive tuples are outside the compared surface). -/
+/-! #### `tuple(set(spaces))`: CPython's iteration order of a set of small ints (setobject.c: open addressing, table of
+     8 slots growing ×4, LINEAR_PROBES = 9, PERTURB_SHIFT = 5, `hash(i) = i` except `hash(-1) = -2`), transcribed because
+     parse_spaces looks only at the FIRST and LAST element of that order -/
+
+def pyHash (i : Int) : Int := if i = -1 then -2 else i
+
+/-- `(size_t)hash` on a 64-bit build -/
+def toSizeT (h : Int) : Nat := if h ≥ 0 then h.toNat else 2 ^ 64 - (-h).toNat
+
+/-- first slot among `i, i+1, …, i+k` that is unused or already holds `key` (`check = true`), else none -/
+def scanSlots (table : Array (Option Int)) (key : Int) (check : Bool) (i : Nat) : Nat → Option Nat
+  | 0 =>
+    match table.getD i none with
+    | none => some i
+    | some k => if check ∧ k = key then some i else none
+  | k + 1 =>
+    match table.getD i none with
+    | none => some i
+    | some k' => if check ∧ k' = key then some i else scanSlots table key check (i + 1) k
+
+/-- the probe loop of set_add_entry (`check = true`) / set_insert_clean (`check = false`) -/
+def probeLoop (table : Array (Option Int)) (key : Int) (check : Bool) (mask : Nat) : Nat → Nat → Nat → Option Nat
+  | 0, _, _ => none
+  | fuel + 1, i, perturb =>
+    let probes := if i + 9 ≤ mask then 9 else 0
+    match scanSlots table key check i probes with
+    | some slot => some slot
+    | none =>
+      let perturb := perturb / 32
+      probeLoop table key check mask fuel ((i * 5 + 1 + perturb) % (mask + 1)) perturb
+
+def setInsert (table : Array (Option Int)) (key : Int) (check : Bool) : Array (Option Int) × Bool :=
+  let mask := table.size - 1
+  let h := toSizeT (pyHash key)
+  match probeLoop table key check mask 200 (h % (mask + 1)) h with
+  | none => (table, false)
+  | some slot =>
+    match table.getD slot none with
+    | some _ => (table, false)            -- already present
+    | none => (table.setIfInBounds slot (some key), true)
+
+def newTableSize (minused : Nat) : Nat → Nat → Nat
+  | 0, size => size
+  | fuel + 1, size => if size ≤ minused then newTableSize minused fuel (size * 2) else size
+
+/-- set_add_key followed by the resize rule `fill*5 >= mask*3 → resize to used*4` (re-insertion in slot order) -/
+def setAdd (st : Array (Option Int) × Nat) (key : Int) : Array (Option Int) × Nat :=
+  let (table, used) := st
+  let (table, added) := setInsert table key true
+  if !added then (table, used) else
+  let used := used + 1
+  let mask := table.size - 1
+  if used * 5 < mask * 3 then (table, used) else
+  let size := newTableSize (used * 4) 64 8
+  let fresh : Array (Option Int) := Array.replicate size none
+  let table := table.foldl (fun t e => match e with | some k => (setInsert t k false).1 | none => t) fresh
+  (table, used)
+
+/-- `tuple(set(l))` for a tuple of ints -/
+def pySetOrder (l : List Int) : List Int :=
+  ((l.foldl setAdd (Array.replicate 8 none, 0)).1.toList).filterMap id
+
+/-- the raw checks of utilities.parse_spaces on a non-empty tuple: only the first and last element of
+    `tuple(set(spaces))` are compared with the range, and the set must be as long as the tuple -/
+def parseChecks (l : List Int) (n : Nat) : Except String Unit :=
+  let tmp := pySetOrder l
+  if tmp.headD 0 < 0 ∨ tmp.getLastD 0 ≥ n then .error "ValueError" else
+  if tmp.length != l.length then .error "ValueError" else .ok ()
+
+/-- utilities.parse_spaces.  A tuple that passes the raw checks although it contains negative or too large indices
+    (e.g. `(1, -1)`: the set iterates as `(1, -1)`) is handed back by the real code as it is; the model reports it as
+    "accepted-out-of-range" here and the `dirty*` functions below transcribe what the callers then do with it.
+    (The last duplicate test can never fire after `parseChecks`; it keeps the theorems independent of the hash-table
+    simulation.) -/
 def parseSpaces (sp : Spaces) (n : Nat) : Except String (List Nat) :=
   match sp with
   | .none => .ok (List.range n)
   | .scalar i => if i < 0 ∨ i ≥ n then .error "ValueError" else .ok [i.toNat]
   | .list l =>
     if l.isEmpty then .ok [] else
-    if l.any (fun i => i < 0) ∨ l.any (fun i => i ≥ n) then .error "ValueError" else
-    if l.eraseDups.length != l.length then .error "ValueError" else
-    .ok (l.map Int.toNat)
+    match parseChecks l n with
+    | .error e => .error e
+    | .ok _ =>
+      if l.any (fun i => i < 0) ∨ l.any (fun i => i ≥ n) then .error "accepted-out-of-range" else
+      if l.eraseDups.length != l.length then .error "accepted-out-of-range" else
+      .ok (l.map Int.toNat)
+
+/-- the tuple parse_spaces returns when it lets out-of-range entries through (`none`: everything else) -/
+def dirtySpaces (sp : Spaces) (n : Nat) : Option (List Int) :=
+  match sp, parseSpaces sp n with
+  | .list l, .error "accepted-out-of-range" => some l
+  | _, _ => none
 
 /-- `domain.scalar_dvol` -/
 def SubDom.scalarDvol (s : SubDom K) : Except String (Option K) :=
@@ -413,6 +494,118 @@ def sVar [Add K] [Sub K] [Mul K] [OfNat K 0] [OfNat K 1] [Inv K] [NatCast K] [De
         if f.dt = DT.complex then { f with dt := DT.float, val := fun i => nsq (f.val i - m1) }
         else { f with dt := max f.dt DT.float, val := fun i => (f.val i - m1) * (f.val i - m1) }
       sMean sq
+
+/-! ### what the callers do with a tuple that parse_spaces accepted although it has negative / too large entries
+  (Python resolves negative indices, NumPy refuses duplicate axes, the result domain is computed from the RAW tuple).
+  Transcription only — the property speaks about subsets of sub-domains, no theorem is claimed here. -/
+
+/-- `t[i]` index resolution of a Python tuple of length `n` -/
+def resolveIdx (n : Nat) (i : Int) : Except String Nat :=
+  if 0 ≤ i ∧ i < (n : Int) then .ok i.toNat
+  else if -(n : Int) ≤ i ∧ i < 0 then .ok (i + n).toNat
+  else .error "IndexError"
+
+def resolveAll (n : Nat) : List Int → Except String (List Nat)
+  | [] => .ok []
+  | i :: t =>
+    match resolveIdx n i with
+    | .error e => .error e
+    | .ok j =>
+      match resolveAll n t with
+      | .error e => .error e
+      | .ok r => .ok (j :: r)
+
+/-- `_contraction_helper(op, spaces)`: the axes of the resolved sub-domains are reduced (IndexError for an index outside
+    `[-n, n)`, NumPy's "duplicate value in 'axis'" ValueError); if everything is reduced the result is a scalar Field,
+    otherwise the remaining domain is built from the sub-domains whose RAW index is not listed, which has more axes than
+    the data: "shape mismatch" ValueError -/
+def dirtyContract (f : Fld K) (li : List Int) (dt : DT) (full : K) : Except String (Fld K) :=
+  match resolveAll f.subs.length li with
+  | .error e => .error e
+  | .ok r =>
+    if r.eraseDups.length != r.length then .error "ValueError"
+    else if r.length = f.subs.length then .ok { dom := 0, subs := [], dt := dt, val := fun _ => full }
+    else .error "ValueError"
+
+/-- the loop of Field.weight over such a tuple (a sub-domain listed twice is weighted twice) -/
+def dirtyWeightLoop [Mul K] [OfNat K 0] [OfNat K 1] [Inv K] (subs : List (SubDom K)) (power : Int) :
+    List Int → K → DT → (Idx → K) → Except String (K × DT × (Idx → K))
+  | [], fct, dt, a => .ok (fct, dt, a)
+  | i :: t, fct, dt, a =>
+    match resolveIdx subs.length i with
+    | .error e => .error e
+    | .ok ind =>
+      match (subs.getD ind default).dvol with
+      | .none => .error "AttributeError"
+      | .scalar w => dirtyWeightLoop subs power t (fct * w) dt a
+      | .vector w =>
+        dirtyWeightLoop subs power t fct (max dt DT.float) (fun idx => a idx * ipow (w.getD (idx.getD ind 0) 0) power)
+
+def dirtyWeight [Mul K] [OfNat K 0] [OfNat K 1] [Inv K] [DecidableEq K] (f : Fld K) (power : Int) (li : List Int) :
+    Except String (Fld K) :=
+  match dirtyWeightLoop f.subs power li 1 f.dt f.val with
+  | .error e => .error e
+  | .ok (fct, dt, a) =>
+    let fct := ipow fct power
+    if fct = 1 then .ok { f with dt := dt, val := a }
+    else .ok { f with dt := max dt DT.float, val := fun idx => a idx * fct }
+
+def allMask (f : Fld K) : List Bool := f.subs.map fun _ => true
+
+def dirtySum [Add K] [OfNat K 0] (f : Fld K) (li : List Int) : Except String (Fld K) :=
+  dirtyContract f li (max f.dt DT.int) (sumOver (allIdx f.sizes) f.val)
+
+def dirtyIntegrate [Add K] [Mul K] [OfNat K 0] [OfNat K 1] [Inv K] [DecidableEq K] (f : Fld K) (li : List Int) :
+    Except String (Fld K) :=
+  match scalarWeight f.subs (.list li) with
+  | .error e => .error e
+  | .ok (some swgt) =>
+    match dirtySum f li with
+    | .error e => .error e
+    | .ok res => .ok (smulFloat res swgt)
+  | .ok none =>
+    match dirtyWeight f 1 li with
+    | .error e => .error e
+    | .ok tmp => dirtySum tmp li
+
+def dirtyMean [Add K] [Mul K] [OfNat K 0] [OfNat K 1] [Inv K] [NatCast K] [DecidableEq K] (f : Fld K) (li : List Int) :
+    Except String (Fld K) :=
+  let all := List.range f.subs.length
+  match scalarWeight f.subs (.list li) with
+  | .error e => .error e
+  | .ok (some _) => dirtyContract f li (max f.dt DT.float) (npMean all (allMask f) f.sizes f.val [])
+  | .ok none =>
+    match dirtyWeight f 1 li with
+    | .error e => .error e
+    | .ok tmp =>
+      match dirtySum tmp li with
+      | .error e => .error e
+      | .ok s =>
+        match totalVolume tmp.subs (.list li) with
+        | .error e => .error e
+        | .ok tv => .ok (smulFloat s ((1 : K) * tv⁻¹))
+
+/-- var / std: the uniform path is NumPy's var over all axes; on the other path `ContractionOperator(domain, spaces)`
+    expects the mean on the sub-domains whose RAW index is not listed, which the scalar mean is not: ValueError -/
+def dirtyVar [Add K] [Sub K] [Mul K] [OfNat K 0] [OfNat K 1] [Inv K] [NatCast K] [DecidableEq K] (nsq : K → K)
+    (f : Fld K) (li : List Int) : Except String (Fld K) :=
+  let all := List.range f.subs.length
+  match scalarWeight f.subs (.list li) with
+  | .error e => .error e
+  | .ok (some _) => dirtyContract f li DT.float (npVar nsq all (allMask f) f.sizes f.val [])
+  | .ok none =>
+    match dirtyMean f li with
+    | .error e => .error e
+    | .ok _ => .error "ValueError"
+
+def dirtyVdot [Add K] [Mul K] [OfNat K 0] (conj : K → K) (f g : Fld K) (li : List Int) : Except String (Fld K) :=
+  if g.dom ≠ f.dom then .error "ValueError" else
+  let full := sumOver (allIdx f.sizes) fun i => conj (f.val i) * g.val i
+  if li.length = f.subs.length then
+    .ok { dom := 0, subs := [], dt := max (max f.dt g.dt) DT.float, val := fun _ => full }
+  else
+    let cf : Idx → K := if f.dt = DT.complex then fun i => conj (f.val i) else f.val
+    dirtyContract f li (max (max f.dt g.dt) DT.int) (sumOver (allIdx f.sizes) fun i => cf i * g.val i)
 
 /-! ### MultiField: sorted keys, one leaf Field per key, identity of the MultiDomain object -/
 
